@@ -20,8 +20,10 @@ package netpoll
 import (
 	"context"
 	"errors"
+	"net"
 	"strings"
 	"sync"
+	"sync/atomic"
 	"syscall"
 	"time"
 )
@@ -41,6 +43,7 @@ type server struct {
 	opts        *options
 	onQuit      func(err error)
 	connections sync.Map // key=fd, value=connection
+	accepting   int32    // accepts in flight: accepted connections that are not in connections yet
 }
 
 // Run this server.
@@ -64,7 +67,8 @@ func (s *server) Close(ctx context.Context) error {
 	s.ln.Close()
 
 	for {
-		activeConn := 0
+		// a connection that is being accepted right now is not in the map yet
+		activeConn := int(atomic.LoadInt32(&s.accepting))
 		s.connections.Range(func(key, value interface{}) bool {
 			conn, ok := value.(gracefulExit)
 			if !ok || conn.isIdle() {
@@ -103,11 +107,8 @@ func (s *server) Close(ctx context.Context) error {
 // OnRead implements FDOperator.
 func (s *server) OnRead(p Poll) error {
 	// accept socket
-	conn, err := s.ln.Accept()
+	_, err := s.accept()
 	if err == nil {
-		if conn != nil {
-			s.onAccept(conn.(Conn))
-		}
 		// EAGAIN | EWOULDBLOCK if conn and err both nil
 		return nil
 	}
@@ -129,14 +130,13 @@ func (s *server) OnRead(p Poll) error {
 				if retryTimeIndex > 0 {
 					time.Sleep(retryTimes[retryTimeIndex] * time.Millisecond)
 				}
-				conn, err := s.ln.Accept()
+				conn, err := s.accept()
 				if err == nil {
 					if conn == nil {
 						// recovery accept poll loop
 						s.operator.Control(PollReadable)
 						return
 					}
-					s.onAccept(conn.(Conn))
 					logger.Println("NETPOLL: re-accept conn success:", conn.RemoteAddr())
 					retryTimeIndex = 0
 					continue
@@ -163,6 +163,19 @@ func (s *server) OnRead(p Poll) error {
 func (s *server) OnHup(p Poll) error {
 	s.onQuit(errors.New("listener close"))
 	return nil
+}
+
+// accept takes one connection from the listener and tracks it.
+// It is counted as in flight until the connection is tracked (or given up),
+// so that Close does not report completion while a connection is still on its way into the map.
+func (s *server) accept() (conn net.Conn, err error) {
+	atomic.AddInt32(&s.accepting, 1)
+	defer atomic.AddInt32(&s.accepting, -1)
+	conn, err = s.ln.Accept()
+	if err == nil && conn != nil {
+		s.onAccept(conn.(Conn))
+	}
+	return conn, err
 }
 
 func (s *server) onAccept(conn Conn) {
